@@ -224,7 +224,18 @@ class Effects:
 
 
 def _const_scalar(node):
-    return isinstance(node, ast.Constant) and isinstance(node.value, (int, float, complex, bool, str, type(None)))
+    """module-level values that are immutable: scalars, strings, compiled regular expressions, tuples / frozensets of such"""
+    if isinstance(node, ast.Constant) and isinstance(node.value, (int, float, complex, bool, str, bytes, type(None))):
+        return True
+    if isinstance(node, ast.Call) and ast.unparse(node.func) in ("re.compile", "frozenset", "float", "int", "str"):
+        return True
+    if isinstance(node, ast.Tuple):
+        return all(_const_scalar(x) for x in node.elts)
+    if isinstance(node, ast.UnaryOp):
+        return _const_scalar(node.operand)
+    if isinstance(node, ast.BinOp):
+        return _const_scalar(node.left) and _const_scalar(node.right)
+    return False
 
 
 class FuncAnalysis:
